@@ -13,6 +13,7 @@ mod rng;
 mod st;
 mod c07;
 mod c08;
+mod c09;
 mod c12;
 
 use std::collections::BTreeMap;
@@ -107,6 +108,7 @@ fn gen(prop: &str, tier: &str, seed: u64) -> Vec<String> {
     match prop {
         "C07" => c07::gen(tier, &mut r),
         "C08" => c08::gen(tier, &mut r),
+        "C09" => c09::gen(tier, &mut r),
         "C12" => c12::gen(tier, &mut r),
         _ => panic!("unknown property {prop}"),
     }
@@ -116,6 +118,7 @@ fn exec(prop: &str, case: &str) -> Exec {
     match prop {
         "C07" => c07::exec(case),
         "C08" => c08::exec(case),
+        "C09" => c09::exec(case),
         "C12" => c12::exec(case),
         _ => panic!("unknown property {prop}"),
     }
